@@ -98,6 +98,18 @@ class Module:
         self.strings = "abstract"
         self.options: dict = {}
         self.sort_aliases: dict[str, S.Sort] = {}
+        self.exc_files: list[str] = []
+
+    def load_exception_classes(self, repo):
+        """exception hierarchy read mechanically from the repository source on every run"""
+        for rel in self.exc_files:
+            _, tree = parse_repo_file(repo, rel)
+            for n in tree.body:
+                if isinstance(n, ast.ClassDef) and n.bases:
+                    b = n.bases[0]
+                    bn = b.id if isinstance(b, ast.Name) else (b.attr if isinstance(b, ast.Attribute) else None)
+                    if bn is not None and (bn in self.excs or bn.endswith("Exception") or bn.endswith("Error")):
+                        self.excs[n.name] = bn
 
     # -- sorts -------------------------------------------------------------------------------
     def sort_of(self, node) -> S.Sort:
@@ -218,6 +230,8 @@ def load(path) -> Module:
             if f == "cls":
                 name = _const(c.args[0])
                 m.classes[name] = ClassDecl(name, [], {}, node.lineno)
+            elif f == "excs_from":
+                m.exc_files.append(_const(c.args[0]))
             elif f == "exc":
                 base = "Exception"
                 for kw in c.keywords:
